@@ -34,6 +34,10 @@ def describe(e):
         return f"signature chain (N={e['N']}, message {e['msg']}, chain {chain}): verdicts {[(c['kind'], c['verdict']) for c in e['checks'][:4]]} contradict the provenance (PSig.tla)"
     if ev == "request":
         return f"signature request (N={e['N']}, tamper={e['tamper']}): outcome {e['out']}, Schnorr relation holds={e['schnorr_holds']}"
+    if ev == "pedersen":
+        bad = [p for p in e["perturbed"] if p["verdict"] or p["verdict"] != p["recomputed_eq"]]
+        return (f"Pedersen commitment ({e['group']}, N={e['N']}, {e['params']}, m={e['m']}, r={e['r']}): element equals independent h^r*prod g_i^m_i: {e['elem_eq_independent']}, "
+                f"original opening accepted: {e['verify_original']}, additive: {e['additive']}, accepted perturbations: {bad[:2]}")
     return f"event rejected: {json.dumps(e)[:400]}"
 
 
@@ -84,9 +88,22 @@ def check_C08(tier, seed):
         lambda e: (e["N"], tuple(e["msg"]), e.get("tamper", json.dumps(e.get("ops")))), ALG_ASSUME)
 
 
+def check_C09(tier, seed):
+    t0 = time.time()
+    build_harness()
+    ms = [tlc_model("Pedersen", c, workers=8, name="mc_ped") for c in (["MC_Pedersen_N1.cfg", "MC_Pedersen_N2.cfg"] + ([] if tier == "quick" else ["MC_Pedersen_N3.cfg"]))]
+    ev = run_lib("C09", "pedersen", tier, seed, "Trace_Pedersen", lambda e: e["ev"] == "pedersen")
+    return lib_evidence("C09", tier, seed, ms, ev,
+        "one evaluation = one commitment for G1 / G2, N in {1,2,3,5,8,13}, parameters generated by the library (read back through the wire form) or supplied explicitly (incl. g_1 = h), "
+        "message and blinding factor from {0, 1, q-1, random} (incl. openings whose commitment is the identity element): element compared with an independent accumulation, original opening verified, "
+        "every single-coordinate (+-1) and blinding-factor perturbation, a second opening and the homomorphism checked; distinct = (group, N, parameter kind, message class, blinding class)",
+        "tlc Pedersen (AcceptsOriginal Exact SinglePerturbationRejects Homomorphic) + Trace_Pedersen on harness commitments", t0,
+        lambda e: (e["group"], e["N"], e["params"], tuple(e["m"]), e["r"]), ALG_ASSUME)
+
+
 def replay_lib(pid, p):
     REGISTRY[pid](p.get("tier", "quick"), p["seed"])
 
 
-REGISTRY = {"C07": check_C07, "C08": check_C08}
+REGISTRY = {"C07": check_C07, "C08": check_C08, "C09": check_C09}
 REPLAY = {"lib": replay_lib}
